@@ -28,6 +28,7 @@ struct Scenario
 };
 
 static bool g_expfail = false;
+static bool g_ff_always_fails = false;  // expfail == 2: the exporter's ForceFlush always reports failure
 static int g_lat      = 0;
 
 struct VMetricExporter final : public sdkmetrics::PushMetricExporter
@@ -49,8 +50,11 @@ struct VMetricExporter final : public sdkmetrics::PushMetricExporter
           }
       }
     emitf("{\"e\":\"XBegin\",\"sum\":%ld}", sum);
-    for (int i = 0; i < g_lat; ++i)
-      vs::point(vs::K_USER, nullptr);
+    if (g_lat == 9)
+      std::this_thread::sleep_for(std::chrono::milliseconds(300));  // slower than export_timeout (40 ms)
+    else
+      for (int i = 0; i < g_lat; ++i)
+        vs::point(vs::K_USER, nullptr);
     bool fail = g_expfail && vs::choose(2) == 1;
     emitf("{\"e\":\"XEnd\",\"ok\":%s}", fail ? "false" : "true");
     return fail ? sdkcommon::ExportResult::kFailure : sdkcommon::ExportResult::kSuccess;
@@ -62,7 +66,7 @@ struct VMetricExporter final : public sdkmetrics::PushMetricExporter
   bool ForceFlush(std::chrono::microseconds) noexcept override
   {
     vs::point(vs::K_USER, nullptr);
-    bool fail = g_expfail && vs::choose(2) == 1;
+    bool fail = g_ff_always_fails || (g_expfail && vs::choose(2) == 1);
     emitf("{\"e\":\"XFF\",\"ok\":%s}", fail ? "false" : "true");
     return !fail;
   }
@@ -96,7 +100,8 @@ static void observe_cb(opentelemetry::metrics::ObserverResult, void *)
 
 static void run_scenario(const Scenario &sc)
 {
-  g_expfail = sc.expfail != 0;
+  g_expfail = sc.expfail == 1;
+  g_ff_always_fails = sc.expfail == 2;
   g_lat     = sc.lat;
   {
     sdkmetrics::PeriodicExportingMetricReaderOptions o;
@@ -162,9 +167,13 @@ static Scenario draw(uint64_t seed)
   sc.nadd    = 1 + (int)(r() % 3);
   sc.nf      = (int)(r() % 3);
   sc.ns      = (int)(r() % 3) == 0 ? 0 : 1 + (int)(r() % 2);
-  sc.lat     = (int)(r() % 3);
+  sc.lat     = (int)(r() % 4);
+  if (sc.lat == 3)
+    sc.lat = 9;  // an exporter slower than the export timeout
   sc.fto     = (int)(r() % 4);
-  sc.expfail = (r() % 4) == 0;
+  sc.expfail = (int)(r() % 4);
+  if (sc.expfail == 3)
+    sc.expfail = 0;
   return sc;
 }
 
